@@ -95,29 +95,17 @@ Theorem C18_file_current_any_policy : forall saves,
 Proof. exact current_mod_run. Qed.
 Print Assumptions C18_file_current_any_policy.
 
-(* Before 9517ed8 the policy was "after an ACK only" ([saves_on_ack]).  Under it: nothing acknowledged is ever
-   missing from the file (full) ... *)
-Theorem C18_file_covers_ack_only : forall c h,
-  lib_hist h ->
-  let r := run_file saves_on_ack c (D.init c) [] h in covers (snd r) (D.tbl (fst r)).
-Proof. exact file_covers. Qed.
-Print Assumptions C18_file_covers_ack_only.
-
-(* ... the file holds nothing stale only if no step loses an acknowledged binding without an ACK (partial) ... *)
-Theorem C18_file_current_ack_only_partial : forall c h,
-  all_keep saves_on_ack c (D.init c) h ->
-  let r := run_file saves_on_ack c (D.init c) [] h in current (snd r) (D.tbl (fst r)).
-Proof. exact file_current_partial. Qed.
-Print Assumptions C18_file_current_ack_only_partial.
-
-(* ... and is refuted in general: DISCOVER, REQUEST (ACK: saved), DECLINE (lease freed, not saved): the file still
-   holds the declined binding, which a restart would resurrect (findings stale-file-after-*, now fixed). *)
-Theorem C18_file_current_ack_only_refuted :
-  let r := run_file saves_on_ack gcfg (D.init gcfg) [] (DSh.with_ch0 h_decline) in
-  exists l, In l (snd r) /\ D.l_state l = D.SAllocated /\ D.l_ip l = Some 3232235522
-            /\ forall l', In l' (D.tbl (fst r)) -> D.l_state l' <> D.SAllocated.
-Proof. exact file_current_refuted. Qed.
-Print Assumptions C18_file_current_ack_only_refuted.
+(* Before /repo 9517ed8 the policy was "after an ACK only": a DECLINE freed the lease without saving and the file
+   kept the declined binding (findings stale-file-after-*, fixed).  The round-3 statements about that policy
+   (C18_file_current_ack_only_partial / _refuted) were retired in round 7: the behaviour is repaired and the positive
+   statement is C18_file_current above; the former counterexample history is the Example below.  What remains true of
+   ANY policy that saves at least after every ACK: nothing acknowledged is ever missing from the file. *)
+Theorem C18_file_covers_any_policy : forall saves,
+  (forall s rp s1, is_ack_reply rp = true -> saves s rp s1 = true) ->
+  forall c h, lib_hist h -> forall s f, covers f (D.tbl s) ->
+    covers (snd (run_file saves c s f h)) (D.tbl (fst (run_file saves c s f h))).
+Proof. exact covers_run. Qed.
+Print Assumptions C18_file_covers_any_policy.
 
 (* the same history under the repaired policy: the DECLINE step saves, the file holds no Allocated record *)
 Example C18_file_current_decline_repaired :
